@@ -46,9 +46,29 @@ type Op struct {
 	Long string `json:"long,omitempty"`
 }
 
-// longLineMax keeps generated lines below bufio.MaxScanTokenSize (65536): at or above it the
-// pinned file loader silently drops the line and everything after it (reported separately).
-const longLineMax = 65000
+// longLineMax bounds the ordinary long lines below bufio.MaxScanTokenSize (65536). Lines of
+// oversizeMin..oversizeMax bytes are generated for from-file operations only: the loader cannot
+// hold them, and the call must then either send every line or return an error having sent
+// nothing (never a nil error with lines left out: finding fixed by 4ffda94).
+const (
+	longLineMax = 65000
+	oversizeMin = 65536
+	oversizeMax = 70000
+)
+
+// Oversize reports whether the operation is a from-file call whose file has a line the loader's
+// scanner cannot hold.
+func Oversize(o *Op) bool {
+	if !strings.HasSuffix(o.API, "file") {
+		return false
+	}
+	for _, c := range o.Cmds {
+		if len(c.Text) >= oversizeMin {
+			return true
+		}
+	}
+	return false
+}
 
 func isGenericOpt(n string) bool { return n == "fwc" || n == "stop" }
 
@@ -736,6 +756,17 @@ func buildOp(r *rand.Rand, s *Session, o Op, pattern string, p []string, unliste
 // of the others; four times rarer and short (<= 4600) in sessions with tiny reads, where every
 // echoed byte costs a read.
 func applyLong(r *rand.Rand, s *Session, o *Op) {
+	if strings.HasSuffix(o.API, "file") && r.Intn(100) == 0 {
+		l := oversizeMin
+		if r.Intn(4) != 0 {
+			l = oversizeMin + r.Intn(oversizeMax-oversizeMin+1)
+		}
+		i := r.Intn(len(o.Cmds))
+		t := o.Cmds[i].Text
+		o.Cmds[i].Text = t[:len(t)-1] + " " + randStr(r, cmdAlpha, l-len(t)-1) + t[len(t)-1:]
+		o.Long = fmt.Sprintf("%d:%d", i, l)
+		return
+	}
 	den := 40
 	if strings.HasSuffix(o.API, "file") {
 		den = 8
